@@ -10,6 +10,7 @@ def check(rep):
     PR.rule_signature(ctx)
     PR.rule_key(ctx, rid="C09.KEY-FREE-NAMES", mode="names")
     PR.rule_key_order_independent(ctx, rid="C09.ORDER-INDEPENDENT")
+    PR.rule_locals_shadow_fields(ctx, "C09.FIELDS-NOT-SHADOWED", consequence="the assignment no longer varies with that splitter's value")
     ER.rule_call_forwards(ctx)
     ER.rule_value_keyed_caches(ctx, rid="C09.NO-VALUE-KEYED-CACHE", modules={"binning/binning.py", "experiment_evaluator.py"})
     ER.rule_installed_function(ctx, rid="C09.ID-ONLY-NAME", strict=False, facets=("namespace", "installed"))
